@@ -27,7 +27,7 @@ ASSUMPTIONS = [
     "instants within 0.1 s of a deadline (responses, connection changes) are not judged; after a reset the next deadline may count from any instant between the close and the re-establishment",
     "any delivered console-version message counts as a response, solicited or not",
 ]
-PROBES = ["c08.blocked_dead_link", "c08.silence_from_start", "c08.silence_after_response", "c08.silence_after_reset", "c08.late_answer", "c08.blackhole", "c08.bare_manager",
+PROBES = ["c08.other_extended_traffic", "c08.blocked_dead_link", "c08.silence_from_start", "c08.silence_after_response", "c08.silence_after_reset", "c08.late_answer", "c08.blackhole", "c08.bare_manager",
           "c08.reset_expected", "c08.second_reset_expected", "c08.all_answered", "c08.outage_over_tick"]
 
 
@@ -120,6 +120,21 @@ def generate(rng, index: int, tier: str) -> dict:
         sc["timeline"].append({"at": t_f - G.EPS, "op": "net.fates", "fates": [{"kind": "accept", "latency": delta + rng.choice([0.25, 0.5, 0.75, 3.0])}]})
         sc["timeline"].append({"at": t_f, "op": "net.fin"})
         sc["info"]["fin_at"] = t_f
+    if rng.random() < 0.3:
+        # other traffic on the link, in particular other *extended* (0x1F) messages: error descriptions pushed by the console,
+        # and AC status frames with a new error code (the client asks for the description, the console answers).  None of it
+        # is a console-version response.
+        t = (t_s if bare else t_init) + rng.choice([40.0, 100.0])
+        step = rng.choice([45.0, 100.0, 200.0])
+        i = 0
+        while t < sc["end"] - 5.0:
+            if bare or rng.random() < 0.5:
+                sc["timeline"].append({"at": t, "op": "console.errtext", "ac": 0, "text": rng.choice(["E5", "ER: 12", None]), "publish": True})
+            else:
+                sc["timeline"].append({"at": t, "op": "console.set", "entity": ["ac", 0], "fields": {"error": 1 + (i % 7)}, "only": True})
+            t += step
+            i += 1
+        sc["info"]["other_extended_traffic"] = True
     sc["timeline"].sort(key=lambda s: s["at"])
     return sc
 
@@ -152,6 +167,8 @@ def execute(sc: dict) -> dict:
         probes["c08.blackhole"] = 1
     if "blocked_dead_link" in info:
         probes["c08.blocked_dead_link"] = 1
+    if info.get("other_extended_traffic"):
+        probes["c08.other_extended_traffic"] = 1
 
     def live_at(t):
         """(state, link): state in {'up','down','amb'}"""
